@@ -129,7 +129,8 @@ Proof.
     destruct (r_cancel (getr s r)); [|discriminate]. inversion H; subst. split; [exact Sr | intros t []].
   - destruct (r_mu (getr s r)); [discriminate|].
     destruct (r_stop (getr s r)); inversion H; subst; simpl; rewrite Na; (split; [split; [intros; discriminate | exact Sr] | intros t []]).
-  - destruct (r_clock (getr s r)); [discriminate|]. inversion H; subst. simpl. rewrite Na. split; [split; [intros; discriminate | exact Sr] | intros t []].
+  - destruct (Nat.eqb arg 1); [destruct (r_cancel (getr s r)); [|discriminate]; inversion H; subst; split; [exact Sr | intros t []]|].
+    destruct (r_clock (getr s r)); [discriminate|]. inversion H; subst. simpl. rewrite Na. split; [split; [intros; discriminate | exact Sr] | intros t []].
   - destruct ks as [|k ks'].
     + inversion H; subst. simpl. rewrite Na. split; [split; [intros; discriminate | exact Sr] | intros t []].
     + destruct (memb arg (k :: ks')); [|discriminate].
